@@ -9,6 +9,7 @@ import KrillModel.Ca.LemmasRoll
 import KrillModel.Ca.LemmasKeySync
 import KrillModel.Ca.LemmasActivate
 import KrillModel.Ca.LemmasTidyReach
+import KrillModel.Ca.LemmasProgress
 namespace KM.Props.C04
 open KM KM.CaK KM.AMap KM.Generated.ApplyDomain
 
@@ -546,5 +547,155 @@ example :
     ks.wf = true ∧ ks.rolling = true ∧
     (ks.round o 0).variant = .rollNew ∧
     ((ks.round o 0).round o 0) = .active ⟨2, o.cert, false⟩ := by decide
+
+/-! ## Progress of the roll at the `Sys` level, from every reachable state
+
+Whatever was interleaved before (the state is an arbitrary reachable one, with any number of
+classes, children, products), the next step of the roll is never refused, never panics, is
+accepted by the listener and moves the class to the next roll state. -/
+
+/-- Initiate: with a repository and a usable fresh key for every `Active` class, the command is
+stored and afterwards no class is `Active` any more (each got its pending key; classes that were
+not `Active` are untouched, `second_roll_noop`). -/
+theorem roll_initiate_progress {s : Sys} (h : Reachable s) (hrepo : s.ca.hasRepo = true)
+    (fresh : AMap Rcn KeyId)
+    (hfresh : ∀ p ∈ s.ca.classes, ∀ c, p.2.keys = .active c → ∃ k, get fresh p.1 = some k ∧ k ≠ c.id) :
+    ∃ evs s', s.exec (.keyrollInit fresh) = .stored evs s' ∧ Reachable s' ∧
+      ∀ p ∈ s.ca.classes, ∃ rc', get s'.ca.classes p.1 = some rc' ∧ rc'.keys.variant ≠ .active := by
+  have hnd := (reachable_inv h).core.nodup
+  have hall : ∀ p ∈ s.ca.classes, ∃ evs, initClass fresh p.1 p.2 = .ok evs := by
+    intro p hp
+    unfold initClass
+    cases hk : p.2.keys with
+    | active c =>
+      obtain ⟨k, hk1, hk2⟩ := hfresh p hp c hk
+      simp only [hk1, hk2, if_false]; exact ⟨_, rfl⟩
+    | pending _ => exact ⟨[], rfl⟩
+    | rollPending _ _ => exact ⟨[], rfl⟩
+    | rollNew _ _ => exact ⟨[], rfl⟩
+    | rollOld _ _ => exact ⟨[], rfl⟩
+  obtain ⟨evs, hevs⟩ := forClasses_ok_of_all hall
+  have hp : s.ca.process (.keyrollInit fresh) = .ok evs := by
+    simp only [Ca.process]
+    split
+    · rename_i hemp
+      simp only [List.isEmpty_iff] at hemp
+      rw [hemp] at hevs; simp only [forClasses, Except.ok.injEq] at hevs; rw [hevs]
+    · simp only [hrepo, Bool.not_true, Bool.false_eq_true, if_false, keyrollInitLoop_eq, hevs]
+  obtain ⟨s', hex, happ, hr'⟩ := stored_of_process h (c := _) (by exact trivial) hp
+  refine ⟨evs, s', hex, hr', ?_⟩
+  exact (forClasses_post (fun rc' => rc'.keys.variant ≠ .active)
+    (fun r rc a ha => ⟨(initClass_ready fresh r rc a ha).1, initClass_post fresh r rc a ha⟩)
+    hnd (classes_get_of_mem hnd) hevs happ).1
+
+/-- Certificate for the new key received: in `RollPending` the parent's answer for the pending key
+is always stored and the class is `RollNew` with that certificate, the current key untouched. -/
+theorem roll_receive_progress {s : Sys} (h : Reachable s) {r : Rcn} {rc : Rc} {p : PendKey} {c : CertKey}
+    (hg : get s.ca.classes r = some rc) (hk : rc.keys = .rollPending p c) (cert : Cert) (na : Int)
+    (prods : List ProdUpd) :
+    ∃ s', s.exec (.updateRcvdCert r p.id cert na prods) =
+        .stored [.key r (.pendingToNew (CertKey.create p.id cert))] s' ∧ Reachable s' ∧
+      get s'.ca.classes r = some { rc with keys := .rollNew (CertKey.create p.id cert) c } := by
+  have hp : s.ca.process (.updateRcvdCert r p.id cert na prods) =
+      .ok [.key r (.pendingToNew (CertKey.create p.id cert))] := by
+    simp [Ca.process, hg, hk, KeyState.route]
+  obtain ⟨s', hex, happ, hr'⟩ := stored_of_process h (c := _) (by exact trivial) hp
+  refine ⟨s', hex, hr', ?_⟩
+  simp only [Ca.applyAll, Ca.apply, Ca.withClass, hg, hk, KeyState.apply, KeyState.applyPendingToNew,
+    Option.map_some, Option.bind_some, Option.some.injEq] at happ
+  rw [← happ]; simp [get_set]
+
+/-- Activate: if every class that has a new key is `activatable` (no open request for its keys;
+every child certificate carries its limit and lies inside the new key's certificate – e.g. the
+parent certified the new key with the resources of the current one), the command is stored and
+every such class is `RollOld` with the new key current and the old key old.  Together with
+`activation_moves_everything` this is the activation step from every reachable state. -/
+theorem roll_activate_progress {s : Sys} (h : Reachable s) (na : Int)
+    (hall : ∀ p ∈ s.ca.classes, p.2.activatable) :
+    ∃ evs s', s.exec (.keyrollActivate na) = .stored evs s' ∧ Reachable s' ∧
+      ∀ r rc n c, get s.ca.classes r = some rc → rc.keys = .rollNew n c →
+        ∃ rc' n' c', get s'.ca.classes r = some rc' ∧ rc'.keys = .rollOld n' c' ∧ n'.id = n.id ∧ c'.id = c.id := by
+  obtain ⟨evs, hevs⟩ := forClasses_ok_of_all (f := fun r rc => activateClass r rc na)
+    (fun p hp => activateClass_ok na (hall p hp))
+  have hp : s.ca.process (.keyrollActivate na) = .ok evs := by
+    simp only [Ca.process, activateLoop_eq, hevs]
+  obtain ⟨s', hex, _, hr'⟩ := stored_of_process h (c := _) (by exact trivial) hp
+  refine ⟨evs, s', hex, hr', ?_⟩
+  intro r rc n c hg hk
+  obtain ⟨cs', os', ho, _, hos, hcs, _⟩ := activation_moves_everything h hex hg hk
+  have hcls := (reachable_inv hr').core.cls r
+  rw [ho] at hcls
+  cases hg' : get s'.ca.classes r with
+  | none => rw [hg'] at hcls; cases hcls
+  | some rc' =>
+    rw [hg'] at hcls
+    obtain ⟨hm, _, _⟩ := hcls
+    cases hk' : rc'.keys with
+    | rollOld n' c' =>
+      rw [hk'] at hm
+      simp only [ksMirror, Bool.and_eq_true, decide_eq_true_eq] at hm
+      exact ⟨rc', n', c', rfl, hk', by rw [← hm.1.1.1, hcs], by rw [← hm.1.2, hos]⟩
+    | pending _ => rw [hk'] at hm; simp [ksMirror] at hm
+    | active _ => rw [hk'] at hm; simp [ksMirror] at hm
+    | rollPending _ _ => rw [hk'] at hm; simp [ksMirror] at hm
+    | rollNew _ _ => rw [hk'] at hm; simp [ksMirror] at hm
+
+/-- Revocation confirmed: in `RollOld` the finish command is always stored; the class is `Active`
+with the new key and (`finish_removes_old_set`) the old key's object set is gone. -/
+theorem roll_finish_progress {s : Sys} (h : Reachable s) {r : Rcn} {rc : Rc} {c o : CertKey}
+    (hg : get s.ca.classes r = some rc) (hk : rc.keys = .rollOld c o) :
+    ∃ s', s.exec (.keyrollFinish r) = .stored [.key r .finished] s' ∧ Reachable s' ∧
+      get s'.ca.classes r = some { rc with keys := .active c } ∧ ∃ cs, get s'.objs r = some (.current cs) := by
+  have hp : s.ca.process (.keyrollFinish r) = .ok [.key r .finished] := by
+    simp [Ca.process, hg, hk, KeyState.keyrollFinish]
+  obtain ⟨s', hex, happ, hr'⟩ := stored_of_process h (c := _) (by exact trivial) hp
+  refine ⟨s', hex, hr', ?_, finish_removes_old_set h hex⟩
+  simp only [Ca.applyAll, Ca.apply, Ca.withClass, hg, hk, KeyState.apply, KeyState.applyFinished,
+    Option.map_some, Option.bind_some, Option.some.injEq] at happ
+  rw [← happ]; simp [get_set]
+
+/-- `roll_completes` for one class at the `Sys` level: from every reachable state in which class `r`
+has a pending key (`RollPending`, whatever else was interleaved), the three remaining roll steps –
+certificate for the new key received, activate, revocation confirmed – are each stored and leave
+the class `Active` with the new key as its only key, provided the classes are `activatable` when
+the activation is submitted (stated on the intermediate state). -/
+theorem roll_completes_from_pending {s : Sys} (h : Reachable s) {r : Rcn} {rc : Rc} {p : PendKey} {c : CertKey}
+    (hg : get s.ca.classes r = some rc) (hk : rc.keys = .rollPending p c) (cert : Cert) (na na' : Int)
+    (hact : ∀ q ∈ (s.next (.updateRcvdCert r p.id cert na [])).ca.classes, q.2.activatable) :
+    let s3 := ((s.next (.updateRcvdCert r p.id cert na [])).next (.keyrollActivate na')).next (.keyrollFinish r)
+    Reachable s3 ∧ ∃ rc' k, get s3.ca.classes r = some rc' ∧ rc'.keys = .active k ∧ k.id = p.id ∧
+      ∃ cs, get s3.objs r = some (.current cs) := by
+  obtain ⟨s1, hex1, hr1, hg1⟩ := roll_receive_progress h hg hk cert na []
+  have hn1 : s.next (.updateRcvdCert r p.id cert na []) = s1 := by unfold Sys.next; rw [hex1]
+  rw [hn1] at hact
+  obtain ⟨evs2, s2, hex2, hr2, hpost2⟩ := roll_activate_progress hr1 na' hact
+  have hn2 : s1.next (.keyrollActivate na') = s2 := by unfold Sys.next; rw [hex2]
+  obtain ⟨rc2, n', c', hg2, hk2, hn', _⟩ := hpost2 r _ _ _ hg1 rfl
+  obtain ⟨s3, hex3, hr3, hg3, hobj⟩ := roll_finish_progress hr2 hg2 hk2
+  have hn3 : s2.next (.keyrollFinish r) = s3 := by unfold Sys.next; rw [hex3]
+  simp only [hn1, hn2, hn3]
+  exact ⟨hr3, _, n', hg3, rfl, by rw [hn']; rfl, hobj⟩
+
+/-- Non-vacuity: a class with a ROA and a child certificate, a second class in another roll state;
+every hypothesis above holds and the three steps end `Active` with key 5. -/
+example :
+    let s := Sys.run {} (staleRoll.take 7 ++ [.keyrollInit [(0, 5)]])
+    (get s.ca.classes 0).map (·.keys.variant) = some .rollPending ∧
+    (let s1 := s.next (.updateRcvdCert 0 5 { res := [1, 2], na := 100 } 62 [])
+     (get s1.ca.classes 0).map (·.keys.variant) = some .rollNew ∧
+     (let s3 := (s1.next (.keyrollActivate 63)).next (.keyrollFinish 0)
+      (get s3.ca.classes 0).map (·.keys) = some (.active ⟨5, { res := [1, 2], na := 100 }, false⟩) ∧
+      (get s3.objs 0).map (fun ok => keys ok.currentSet.published) = some [.cer 6, .prod .roa 31])) := by decide
+
+/-- Non-vacuity of `activatable`: holds for the class above after the certificate for the new key
+arrived; fails when the new key was certified with fewer resources than a child certificate holds
+(then activation is refused as a whole until the current key's certificate shrinks too). -/
+example :
+    let cc : ChildCert := { res := [1], na := 60 }
+    (Rc.mk 9 0 (.rollNew ⟨5, { res := [1, 2] }, false⟩ ⟨4, { res := [1, 2] }, false⟩) { issued := [(6, cc)] } []).activatable ∧
+    ¬ (Rc.mk 9 0 (.rollNew ⟨5, { res := [2] }, false⟩ ⟨4, { res := [1, 2] }, false⟩) { issued := [(6, cc)] } []).activatable := by
+  constructor
+  · simp [Rc.activatable]; decide
+  · simp [Rc.activatable]; decide
 
 end KM.Props.C04
